@@ -601,6 +601,7 @@ def _run_dataset(desc):
                             break
                     sh.evaluations += 1
                     sh.nontrivial += 1
+                    sh.states += 1
                     sh.transitions += len(hist)
     finally:
         shutil.rmtree(wd, ignore_errors=True)
